@@ -109,7 +109,16 @@ def snapshot_execution(sql, e):
           'export': {k: v for k, v in e.table_to_export_map.items()},
           'dep': sorted(set(tuple(x) for x in e.dependency_edges)),
           'data': sorted(set(tuple(x) for x in e.data_dependency_edges)),
-          'iterations': {k: dict(v) for k, v in e.iterations.items()}}
+          'iterations': {k: dict(v) for k, v in e.iterations.items()},
+          # what ExecuteLogicaProgram puts in front of every statement of this execution
+          'stmt_preamble': specific_preamble(e)}
+
+
+def specific_preamble(e):
+  try:
+    return e.PredicateSpecificPreamble(e.main_predicate)
+  except Exception as x:      # e.g. dependencies not computed for this kind of request
+    return 'n/a: ' + type(x).__name__
 
 
 def do_parse(req):
@@ -777,7 +786,7 @@ def normalise(res):
 
 
 def first_difference(a, b):
-  for key in ('error', 'sql', 'preamble', 'defines', 'main', 'export', 'dep', 'data', 'iterations'):
+  for key in ('error', 'sql', 'preamble', 'defines', 'main', 'export', 'dep', 'data', 'iterations', 'stmt_preamble'):
     if a.get(key) != b.get(key):
       x, y = a.get(key), b.get(key)
       if isinstance(x, str) and isinstance(y, str):
